@@ -490,7 +490,7 @@ def judge_targets(ref, params, df, targets, valid):
 # --------------------------------------------------------------------------------------
 # convenience: one real simulate() call
 # --------------------------------------------------------------------------------------
-def simulate_once(fsim, params, init, vf=None, seed=0, targets=None, leaf="float", st_obj=None, p_obj=None):
+def simulate_once(fsim, params, init, vf=None, seed=0, targets=None, leaf="float", st_obj=None, p_obj=None, vf_obj=None):
     import jax.numpy as jnp
 
     # call variants that must not matter are rotated: targets as list / tuple, seed as python
@@ -498,7 +498,9 @@ def simulate_once(fsim, params, init, vf=None, seed=0, targets=None, leaf="float
     _CALLS[0] += 1
     k = _CALLS[0]
     kw = {}
-    if vf is not None:
+    if vf_obj is not None:
+        kw["vf_arr_list"] = vf_obj  # the caller's own list object, handed over as it is
+    elif vf is not None:
         kw["vf_arr_list"] = [jnp.asarray(a) for a in vf]
     if targets is not None:
         kw["additional_targets"] = list(targets) if k % 2 else tuple(targets)
